@@ -101,7 +101,7 @@ def bsf_wt(bsf):
     :rtype: int
     """
     assert np.array_equal(bsf % 2, bsf), 'BSF {} is not in binary form'.format(bsf)
-    return np.count_nonzero(sum(np.hsplit(bsf, 2)))
+    return int(np.count_nonzero(sum(np.hsplit(bsf, 2))))
 
 
 def bsp(a, b):
